@@ -158,7 +158,7 @@ Inductive class_item := CChar (c : N) | CRange (lo hi : N).
 Definition item_ok_class (i : class_item) : Prop :=
   match i with
   | CChar c => c <> 45%N
-  | CRange lo hi => lo <> 45%N /\ hi <> 45%N /\ (hi < 255)%N /\ (lo <= hi)%N
+  | CRange lo hi => lo <> 45%N /\ hi <> 45%N /\ (lo <= hi)%N
   end.
 
 Definition render_class_item (i : class_item) : bytes :=
